@@ -1018,11 +1018,11 @@ func (*AliasDeclarationEntry) IsStatic() bool {
 }
 
 func (*AliasDeclarationEntry) Class() *value.Class {
-	return value.MethodSignatureDefinitionNodeClass
+	return value.AliasDeclarationEntryClass
 }
 
 func (*AliasDeclarationEntry) DirectClass() *value.Class {
-	return value.MethodSignatureDefinitionNodeClass
+	return value.AliasDeclarationEntryClass
 }
 
 func (n *AliasDeclarationEntry) Inspect() string {
